@@ -118,6 +118,17 @@ claim("C11",
       "Trusted: python ast; table of operators with identical C/Fortran integer semantics (+ - * /).",
       "DESIGN.md §4 C11")
 
+claim("C08",
+      "pairing/typestate analysis of clone sites in GenFunctions on all paths, name-template field analysis against "
+      "docs/reference.rst, suffix-source data-flow checks, generic-interface writer/reader agreement",
+      "Decides from the current source that every generated variant (default-argument, template, generic, bufferify, "
+      "CFI, return_this, class instantiation) is registered exactly once, is marked generated, and either gets a "
+      "per-variant suffix or replaces its original; that the default name templates contain every distinguishing "
+      "field and equal the documented defaults; that suffix sources are per-variant indices; and that generic "
+      "interfaces list the registered specifics. Global uniqueness over arbitrary user names is not decided.",
+      "Trusted: python ast; docs/reference.rst as the statement of documented defaults.",
+      "DESIGN.md §4 C08")
+
 PENDING = "check not built yet in this session (fail-closed: not claimed until its rules run clean)"
-for _p in ["C01","C02","C03","C06","C08","C10","C18"]:
+for _p in ["C01","C02","C03","C06","C10","C18"]:
     na(_p, PENDING)
